@@ -162,6 +162,7 @@ def table_start(tape, clock, tier):
 def random_windows(tape, clock):
     run = Run(PROP)
     store = C.Store('s3', key_prefix=tape.choice(['a', '', 'ab']), clock=clock, page_size=tape.choice([1000, 1, 2]))
+    store.ia_kb = tape.choice([None, None, 0.001])
     try:
         span = 3 * 86400
         instants = sorted(T0 + datetime.timedelta(seconds=tape.draw(span // 60) * 60 + tape.choice([0, 0, 1, 59])) for _ in range(4 + tape.draw(12)))
